@@ -1092,6 +1092,57 @@ def enum_corruptions(ctx):
 
 # ------------------------------------------------------------------------------------------------
 
+# ---- part: fractions of seconds written with more than nine digits ------------------------------------------------------------------
+# Whether the tenth and further digits are cut off or rounded is not decided (so the main parts assert nothing about such literals),
+# but nanosecond precision "without loss" leaves exactly these two readings: the value equals the literal cut after the ninth digit,
+# or that one rounded on the tenth digit.
+
+def gen_long_fraction(src):
+    n = src.weighted([(3, None), (2, 19), (3, 20), (2, 21), (1, 30), (1, 10)])
+    n = src.int(10, 28) if n is None else n
+    first9 = src.weighted([(3, None), (1, "000000000"), (1, "999999998"), (1, "500000000")])
+    first9 = "%09d" % src.int(0, 999999998) if first9 is None else first9       # never all nines: rounding does not carry into the seconds
+    tail = src.weighted([(4, None), (2, "9" * (n - 9)), (1, "5" + "0" * (n - 10)), (1, "0" * (n - 9)), (1, "4" + "9" * (n - 10))])
+    tail = src.digits(n - 9) if tail is None else tail
+    kind = src.choice(["time", "dt", "dtd"])
+    return {"kind": kind, "first9": first9, "tail": tail, "neg": kind == "dtd" and src.bool(0.3), "zone": src.choice(["", "Z", "+05:30", "@Europe/Paris"]) if kind != "dtd" else ""}
+
+
+def _lf_texts(case):
+    f9, tail = case["first9"], case["tail"]
+    up = "%09d" % (int(f9) + 1)
+    def lit(frac):
+        frac = "." + frac if frac else ""
+        if case["kind"] == "time":
+            return 'time("10:20:30%s%s")' % (frac, case["zone"])
+        if case["kind"] == "dt":
+            return 'date and time("2021-03-04T10:20:30%s%s")' % (frac, case["zone"])
+        return 'duration("%sP1DT2H3M4%sS")' % ("-" if case["neg"] else "", frac)
+    return lit(f9 + tail), lit(f9), lit(up)
+
+
+def reqs_long_fraction(case):
+    v, cut, rounded = _lf_texts(case)
+    return [{"op": "eval", "text": "{v: %s, r: [v = %s, v = %s, string(v), v = null]}.r" % (v, cut, rounded)}]
+
+
+def judge_long_fraction(ctx, case, resp):
+    r = resp[0]
+    v, cut, rounded = _lf_texts(case)
+    digits = 9 + len(case["tail"])
+    ctx.note(key=["long-fraction", v], nontrivial=True, labels=["long-fraction", "long-fraction:" + case["kind"], "fraction-digits:%s" % ("10-18" if digits <= 18 else "19-20" if digits <= 20 else "21+")],
+             sample={"literal": v, "answer": str(r.get("values"))[:160]})
+    if "values" not in r:
+        return Fail("C14/long-fraction-not-evaluated", "%s: %r" % (v, r))
+    items = r["values"][0].get("l") if isinstance(r["values"][0], dict) else None
+    if not items or len(items) != 4:
+        return Fail("C14/long-fraction-not-evaluated", "%s: %r" % (v, r["values"][0]))
+    if items[3] is True or (items[0] is not True and items[1] is not True):
+        return Fail("C14/fraction-beyond-nine-digits-lost", "%s denotes neither %s (cut after the ninth digit) nor %s (rounded on the tenth): it prints as %r" % (
+            v, cut, rounded, items[2]))
+    return None
+
+
 def setup(ctx):
     ctx.rule = ("cases: literal texts of dates, times, date-times and both duration kinds, each through the FEEL constructor, the @-literal and "
                 "the xsd constructor (components, string(v), read-back equality and idempotent text in one expression), plus values built "
@@ -1115,6 +1166,7 @@ def setup(ctx):
     ctx.p_dur = ctx.register(Part("durations", None, reqs_literal, judge_literal))
     ctx.p_dur_checked = ctx.register(Part("durations-checked", None, reqs_literal, judge_literal, profile="checked"))
     ctx.p_corrupt = ctx.register(Part("corruptions", None, reqs_literal, judge_literal))
+    ctx.p_longfrac = ctx.register(Part("long-fraction", gen_long_fraction, reqs_long_fraction, judge_long_fraction))
     ctx.p_lit = ctx.register(Part("literal", gen_literal, reqs_literal, judge_literal))
     ctx.p_val = ctx.register(Part("value", gen_value, reqs_value, judge_value))
     ctx.p_twins = ctx.register(Part("zone-twins", gen_twins, reqs_twins, judge_twins))
@@ -1135,6 +1187,7 @@ def run(ctx):
     ctx.forall(ctx.p_lit, ctx.scale(40000, 6400000))
     ctx.forall(ctx.p_val, ctx.scale(20000, 3200000))
     ctx.forall(ctx.p_twins, ctx.scale(8000, 600000))
+    ctx.forall(ctx.p_longfrac, ctx.scale(6000, 600000))
     ctx.enumerate(ctx.p_local, enum_local_zone(ctx), batch=100, name="zone-less literals around the clock changes of the process's own time zone (TZ = 4 zones)",
                   exhaustive=ctx.thorough())
     for d in _TZ_DRIVERS.values():
